@@ -207,6 +207,16 @@ class Tracer(SymEval):
             return self.eval(n["e"], env)
         return ("tuple", [])
 
+    def e_call(self, n, env):
+        f = n["f"]
+        if not (f.get("k") == "path" and f.get("res") == "def"):
+            # call of a local function value (closure parameter, hook closure literal): record it
+            fv = self.eval(f, env)
+            args = [self.eval(a, env) for a in n["args"]]
+            self.events.append(Event("<apply>", [fv] + args, self.loops, self.guards, n.get("sp"), n, dict(env)))
+            return self.apply(fv, args)
+        return super().e_call(n, env)
+
     def e_match(self, n, env):
         from .symx import const_key
         from .tables import pat_key
